@@ -36,7 +36,7 @@ static inline void iora_slice_prepend_slice(iora_slice *a, const iora_slice *b) 
   if (b->lo != b->hi) a->lo = b->lo; }
 typedef struct { iora_slice buffer; iora_ovec fragmentBuffer; WsOpcode fragmentOpcode; bool closeSent; } WsSessionState;
 /* _sessions restricted to the session id being processed (witness key): the code reaches sessions only through find(sid) */
-typedef struct { size_t _maxFrameSize; bool _onError, _onTextMessage, _onBinaryMessage; bool has_gs; WsSessionState gs; iora_mutex _wsMutex; } WsServer;
+typedef struct { size_t _maxFrameSize; bool _onError, _onTextMessage, _onBinaryMessage, _onClose; bool has_gs; WsSessionState gs; iora_mutex _wsMutex; } WsServer;
 static inline WsSessionState *WsServer_sessions_find(WsServer *self, SessionId sid) { (void)sid; return self->has_gs ? &self->gs : NULL; }
 #define IORA_LOCK_GUARD(m) do { } while (0)
 
@@ -71,27 +71,41 @@ static inline void WsServer_sessions_erase(WsServer *self, SessionId sid) { (voi
 static inline void WsServer_closeSession(WsServer *self, SessionId sid) { (void)self; (void)sid; }
 
 /* ---- outgoing frames (sendText/sendBinary/sendClose): "after an endpoint has sent a close frame it sends no further data frame" ---- */
-enum { WS_OUT_DATA = 1, WS_OUT_CLOSE = 2 };
-typedef struct { int kind; } WsOutFrame;
-typedef struct { int kind; } WsWire;
-static inline WsOutFrame WsOut_makeText(void) { return (WsOutFrame){ WS_OUT_DATA }; }
-static inline WsOutFrame WsOut_makeBinary(void) { return (WsOutFrame){ WS_OUT_DATA }; }
-static inline WsOutFrame WsOut_makeClose(void) { return (WsOutFrame){ WS_OUT_CLOSE }; }
-static inline WsWire WsOut_serialize(const WsOutFrame *f) { return (WsWire){ f->kind }; }
+enum { WS_OUT_DATA = 1, WS_OUT_CLOSE = 2, WS_OUT_PONG = 3 };
+typedef struct { int kind; size_t n; uint8_t gk; uint16_t code; } WsOutFrame;
+typedef struct { int kind; size_t n; uint8_t gk; uint16_t code; } WsWire;
+static inline WsOutFrame WsOut_makeText(void) { return (WsOutFrame){ WS_OUT_DATA, 0, 0, 0 }; }
+static inline WsOutFrame WsOut_makeBinary(void) { return (WsOutFrame){ WS_OUT_DATA, 0, 0, 0 }; }
+static inline WsOutFrame WsOut_makeClose(void) { return (WsOutFrame){ WS_OUT_CLOSE, 0, 0, 0 }; }
+static inline WsOutFrame WsOut_makeCloseWith(uint16_t code) { return (WsOutFrame){ WS_OUT_CLOSE, 0, 0, code }; }
+/* makePong(payload): the pong carries exactly the ping's payload (length + witness byte) */
+static inline WsOutFrame WsOut_makePong(const uint8_t *p, size_t n) { WsOutFrame f = { WS_OUT_PONG, n, 0, 0 }; if (GK < n) f.gk = p[GK]; return f; }
+static inline WsWire WsOut_serialize(const WsOutFrame *f) { return (WsWire){ f->kind, f->n, f->gk, f->code }; }
 static inline WsSessionState *WsServer_sessions_find_locked(WsServer *self, SessionId sid) { (void)sid;
   IORA_ASSERT(self->_wsMutex.held, "LK: _sessions is accessed with _wsMutex held");
   return self->has_gs ? &self->gs : NULL; }
-unsigned G_data_sent, G_close_sent;
+unsigned G_data_sent, G_close_sent, G_pong_sent, G_hdf_calls, G_closecb_calls, G_closeSession_calls, G_sendClose_calls; size_t G_pong_n; uint8_t G_pong_gk; uint16_t G_close_frame_code, G_closecb_code, G_sendClose_code;
 /* hands bytes to the transport. The ordering clauses live here, at the point where a frame becomes visible on the wire. */
 static inline void WsServer_sendRaw(WsServer *self, SessionId sid, const WsWire *w) { (void)sid;
   if (w->kind == WS_OUT_DATA) {
     IORA_ASSERT(self->_wsMutex.held, "CS2: a data frame is handed to the transport with _wsMutex held (recheck and send are atomic w.r.t. sendClose)");
     IORA_ASSERT(self->has_gs && !self->gs.closeSent, "CS3: a data frame is sent only for a known session whose close frame has not been sent");
     if (G_data_sent < 1000) G_data_sent++;
+  } else if (w->kind == WS_OUT_PONG) {
+    if (G_pong_sent < 1000) G_pong_sent++; G_pong_n = w->n; G_pong_gk = w->gk;
   } else {
     IORA_ASSERT(!self->has_gs || self->gs.closeSent, "CS1: closeSent is set BEFORE the close frame is handed to the transport (no data frame can slip in behind it)");
-    if (G_close_sent < 1000) G_close_sent++;
+    if (G_close_sent < 1000) G_close_sent++; G_close_frame_code = w->code;
   } }
+/* handleFrame: callees as recording stubs */
+typedef struct { int id; } WsReason;
+static inline uint16_t WsFrameIn_closeCode(WsFrameIn f) { return f.payload.n < 2 ? 1005 : (uint16_t)(((uint16_t)f.payload.p[0] << 8) | f.payload.p[1]); }
+static inline WsReason WsFrameIn_closeReason(WsFrameIn f) { (void)f; return (WsReason){0}; }
+static inline void WsServer_hdf_stub(WsServer *self, SessionId sid, WsFrameIn f) { (void)self; (void)sid; (void)f; if (G_hdf_calls < 1000) G_hdf_calls++; }
+static inline void WsServer_cb_close(WsServer *self, SessionId sid, uint16_t code) { (void)self; (void)sid; if (G_closecb_calls < 1000) G_closecb_calls++; G_closecb_code = code; }
+static inline void WsServer_sendClose_rec(WsServer *self, SessionId sid, uint16_t code, const char *r) { (void)sid; (void)r; if (G_sendClose_calls < 1000) G_sendClose_calls++; G_sendClose_code = code; if (self->has_gs) self->gs.closeSent = true; }
+static inline void WsServer_closeSession_rec(WsServer *self, SessionId sid) { (void)self; (void)sid; IORA_ASSERT(!self->_wsMutex.held, "closeSession is called with _wsMutex released (lock order)"); if (G_closeSession_calls < 1000) G_closeSession_calls++; }
+static inline void WsServer_sessions_erase_locked(WsServer *self, SessionId sid) { (void)sid; IORA_ASSERT(self->_wsMutex.held, "LK: _sessions is mutated with _wsMutex held"); self->has_gs = false; }
 
 /* ---- client ---- */
 typedef struct { WsOpcode _fragmentOpcode; iora_ovec _fragmentBuffer; bool _onTextMessage, _onBinaryMessage; } WsClient;
